@@ -30,10 +30,18 @@ where
 {
     let multiplier = 10_f64.powf(precision as f64);
     let mut scaled = num * multiplier;
-    if scaled == 0.0 && num != 0.0 && multiplier != 0.0 {
+    if scaled == 0.0 && num != 0.0 {
         // The product underflowed: keep a non-zero value of the same sign so that
         // `ceil` / `floor` still move away from zero.
         scaled = f64::MIN_POSITIVE.copysign(num);
+    }
+    if multiplier == 0.0 {
+        // `10^precision` itself underflowed: the only multiples of `10^-precision` are zero
+        // and values beyond the `f64` range. Zero is the answer unless the operation moves
+        // away from zero (`ceil` of a positive, `floor` of a negative number); then `num`
+        // is the closest representable value on the required side.
+        let rounded = fun(scaled);
+        return if rounded == 0.0 { rounded } else { num };
     }
     let result = fun(scaled) / multiplier;
     if result.is_infinite() && num.is_finite() {
